@@ -154,11 +154,13 @@ fn ser_cap(cap: usize, r: &ctap1::Response, prefix: &[u8]) -> Result<(bool, Vec<
         256 => ser::<256>(r, prefix),
         1024 => ser::<1024>(r, prefix),
         2048 => ser::<2048>(r, prefix),
+        65536 => ser::<65536>(r, prefix),
+        66000 => ser::<66000>(r, prefix),
         _ => machinery_panic("capacity not instantiated"),
     }
 }
 
-pub const CAPS: [usize; 12] = [0, 1, 5, 6, 7, 66, 67, 68, 128, 256, 1024, 2048];
+pub const CAPS: [usize; 14] = [0, 1, 5, 6, 7, 66, 67, 68, 128, 256, 1024, 2048, 65536, 66000];
 
 pub fn check_content(r: &Resp, cap: usize, prefix_len: usize, content: u8) -> Verdict {
     CONTENT.with(|c| c.set(content));
@@ -411,7 +413,7 @@ pub fn run(ctx: &'static Ctx) {
         }
     }
     let (cr, pr) = (&cases, &probes);
-    sweep(ctx, "remaining buffer space 0..=length+2 in 12 capacities", cases.len() as u64, "7 responses x capacities {0,1,5,6,7,66,67,68,128,256,1024,2048} x every amount of remaining space around the response length (buffer pre-filled with a sentinel pattern)", move |idx, l| {
+    sweep(ctx, "remaining buffer space 0..=length+2 in 14 capacities", cases.len() as u64, "7 responses x capacities {0,1,5,6,7,66,67,68,128,256,1024,2048,65536,66000} x every amount of remaining space around the response length (buffer pre-filled with a sentinel pattern)", move |idx, l| {
         let (pi, cap, prefix) = cr[idx as usize];
         let r = &pr[pi];
         l.nontrivial += 1;
